@@ -404,3 +404,63 @@ void pl_lemma_dist400(void)
   __CPROVER_assume(lemma_dist400_REQ(x, y));
   __CPROVER_assert(lemma_dist400_ENS(x, y), "lemma_dist400.ENS");
 }
+
+/* ---- C05 inverse laws ---- */
+void pl_lemma_osec_inj(void)
+{
+  fields a, b;
+  __CPROVER_assume(lemma_osec_inj_REQ(a, b));
+  BOUND_DAYORD(a.y, a.m, a.d); BOUND_DAYORD(b.y, b.m, b.d);
+  USE(lemma_dayord_lex_REQ(a.y, a.m, a.d, b.y, b.m, b.d), lemma_dayord_lex_ENS(a.y, a.m, a.d, b.y, b.m, b.d), "dayord_lex");
+  STEP(ODAY(a) == ODAY(b) && a.hh == b.hh && a.mm == b.mm && a.ss == b.ss, "mixed-radix digits of equal second ordinals are equal");
+  __CPROVER_assert(lemma_osec_inj_ENS(a, b), "lemma_osec_inj.ENS");
+}
+void pl_lemma_unitrepr(void)
+{
+  fields a;
+  __CPROVER_assume(lemma_unitrepr_REQ(a));
+  BOUND_DAYORD(a.y, a.m, a.d);
+  USE(lemma_validrepr_REQ(a.y, a.m, a.d), lemma_validrepr_ENS(a.y, a.m, a.d), "validrepr");
+  USE(lemma_dm_small_REQ(a.ss), lemma_dm_small_ENS(a.ss), "dm_small"); USE(lemma_dm_small_REQ(a.mm), lemma_dm_small_ENS(a.mm), "dm_small"); USE(lemma_dm_small_REQ(a.hh), lemma_dm_small_ENS(a.hh), "dm_small");
+  USE(lemma_dm_lin_REQ(OMIN(a), a.ss), lemma_dm_lin_ENS(OMIN(a), a.ss), "dm_lin"); USE(lemma_dm_lin_REQ(OHOUR(a), a.mm), lemma_dm_lin_ENS(OHOUR(a), a.mm), "dm_lin");
+  USE(lemma_dm_lin_REQ(ODAY(a), a.hh), lemma_dm_lin_ENS(ODAY(a), a.hh), "dm_lin");
+  STEP(FD60(OSEC(a)) == OMIN(a) && FD60(OMIN(a)) == OHOUR(a) && FD24(OHOUR(a)) == ODAY(a), "floor chain of a valid civil second");
+  __CPROVER_assert(lemma_unitrepr_ENS(a), "lemma_unitrepr.ENS");
+}
+/* (a + n) - n == a   and   (a - b) + b == a,  per alignment: the operators are replaced by their contracts */
+#define C05_INVERSE(T) \
+void pl_C05_inverse_##T(void) \
+{ \
+  fields a; diff_t n; \
+  __CPROVER_assume(OVALID(a) && ALIGNED_##T(a) && REPR_##T(UNIT_##T(a) + n)); \
+  USE(lemma_unitrepr_REQ(a), lemma_unitrepr_ENS(a), "unitrepr"); \
+  fields r = ct_##T##_plus(a, n); \
+  fields s = ct_##T##_minus(r, n); \
+  USE(lemma_osec_inj_REQ(s, a), lemma_osec_inj_ENS(s, a), "osec_inj"); \
+  __CPROVER_assert(FIELDS_EQ(s, a), "C05: (a + n) - n == a"); \
+} \
+void pl_C05_diffplus_##T(void) \
+{ \
+  fields a, b; \
+  __CPROVER_assume(OVALID(a) && ALIGNED_##T(a) && OVALID(b) && ALIGNED_##T(b) && FITS64(UNIT_##T(a) - UNIT_##T(b))); \
+  USE(lemma_unitrepr_REQ(a), lemma_unitrepr_ENS(a), "unitrepr"); \
+  diff_t d = ct_##T##_diff(a, b); \
+  fields r = ct_##T##_plus(b, d); \
+  USE(lemma_osec_inj_REQ(r, a), lemma_osec_inj_ENS(r, a), "osec_inj"); \
+  __CPROVER_assert(FIELDS_EQ(r, a), "C05: (a - b) + b == a"); \
+}
+C05_INVERSE(second)
+C05_INVERSE(minute)
+C05_INVERSE(hour)
+C05_INVERSE(day)
+/* reachability probe for the inverse-law lemmas (run by hand: its assertion must FAIL) */
+void pl_C05_probe(void)
+{
+  fields a; diff_t n;
+  __CPROVER_assume(OVALID(a) && ALIGNED_second(a) && REPR_second(UNIT_second(a) + n));
+  USE(lemma_unitrepr_REQ(a), lemma_unitrepr_ENS(a), "unitrepr");
+  fields r = ct_second_plus(a, n);
+  fields s = ct_second_minus(r, n);
+  USE(lemma_osec_inj_REQ(s, a), lemma_osec_inj_ENS(s, a), "osec_inj");
+  __CPROVER_assert(!(n == 86400 && a.y == 2020 && s.y == 2020), "PROBE: must fail (the end of the harness is reachable with a concrete-looking input)");
+}
